@@ -88,6 +88,9 @@ type dynCase struct {
 	ops []dynOp
 }
 
+// statistics over all Dynamic draws (evidence only)
+var dynStats = map[string]int{}
+
 // runDyn executes the case on a fresh Dynamic; returns the Coq term, JSON and whether a
 // scroll / cursor-follow path was taken in some Draw.
 func runDyn(c dynCase) (string, map[string]interface{}, bool, bool) {
@@ -110,12 +113,10 @@ func runDyn(c dynCase) (string, map[string]interface{}, bool, bool) {
 	var jsteps []interface{}
 	nontriv := false
 	panicked := false
+	sel := false
 	for _, op := range c.ops {
 		var children [][4]int64
 		pcur, ptop, poff, ppend, pwants := d.VerifState()
-		_ = pcur
-		_ = ptop
-		_ = poff
 		isPanic, msg := hx.Catch(func() {
 			switch op.kind {
 			case "next":
@@ -165,6 +166,25 @@ func runDyn(c dynCase) (string, map[string]interface{}, bool, bool) {
 			}
 		})
 		cur, top, off, pend, wants := d.VerifState()
+		if op.kind == "draw" && !isPanic {
+			dynStats["draws"]++
+			if len(children) > 0 && uint64(children[0][0]) < uint64(ptop) {
+				dynStats["draws_inserting_above_top"]++
+				if c.gap > 0 && len(children) > 1 {
+					dynStats["draws_gap_insert_class"]++
+				}
+			}
+			if pwants {
+				dynStats["draws_following_cursor"]++
+			}
+			if sel && ppend == 0 && c.gap >= 0 && uint64(pcur) < uint64(len(items)) && op.b > 0 {
+				dynStats["draws_after_selection_change"]++
+				if poff >= 0 && (poff == 0 || (uint64(ptop) < uint64(len(items)) && poff < int(items[ptop].h))) {
+					dynStats["draws_after_selection_change_with_ioff(visibility_checked)"]++
+				}
+			}
+		}
+		sel = op.kind == "setcursor" || ((op.kind == "next" || op.kind == "prev") && cur != pcur)
 		oc := int64(0)
 		if isPanic {
 			oc = 1
@@ -231,13 +251,18 @@ func genDynCase(cfg *hx.Config, maxOps int) dynCase {
 	case 5:
 		c.gap = r.Intn(5) - 1 // -1..3
 	}
+	scrolly := r.Intn(10) < 4 // scroll-heavy traces: upward insertion needs offset > 0 or a negative pending scroll
 	n := r.Intn(10)
 	if r.Intn(10) == 0 {
 		n = 0
 	}
+	H := int64(r.Intn(9))
+	if scrolly {
+		n = 6 + r.Intn(14)
+		H = int64(1 + r.Intn(5))
+	}
 	cur := append([]int64{}, genHeights(cfg, n)...)
 	c.hs = append([]int64{}, cur...)
-	H := int64(r.Intn(9))
 	W := int64(r.Intn(7))
 	nops := 1 + r.Intn(maxOps)
 	autodraw := r.Intn(10) < 7
@@ -251,7 +276,18 @@ func genDynCase(cfg *hx.Config, maxOps int) dynCase {
 	vias := []string{"call", "key", "arrow"}
 	for len(c.ops) < nops {
 		var op dynOp
-		switch x := r.Intn(100); {
+		x := r.Intn(100)
+		if scrolly {
+			switch y := r.Intn(100); {
+			case y < 25:
+				x = 57 // wheel down
+			case y < 50:
+				x = 68 // wheel up
+			case y < 60:
+				x = 86 // pending scroll
+			}
+		}
+		switch {
 		case x < 30:
 			op = draw()
 		case x < 45:
@@ -276,7 +312,11 @@ func genDynCase(cfg *hx.Config, maxOps int) dynCase {
 			}
 			op = dynOp{kind: "setcursor", u: u}
 		case x < 91:
-			op = dynOp{kind: "setpending", a: int64(r.Intn(17) - 8)}
+			k := int64(r.Intn(17) - 8)
+			if scrolly && k > 0 && r.Intn(2) == 0 {
+				k = -k
+			}
+			op = dynOp{kind: "setpending", a: k}
 		default:
 			m := r.Intn(10)
 			if r.Intn(4) == 0 {
@@ -347,14 +387,16 @@ func exhaustiveDyn(maxLen int, thorough bool) []dynCase {
 		gap int
 	}
 	var confs []conf
-	ns := []int{0, 1, 3}
-	Hs := []int64{0, 2}
+	ns := []int{0, 2, 3}
+	Hs := []int64{0, 3}
+	hh := []int64{2}
 	if thorough {
-		ns = []int{0, 1, 2, 3, 5}
-		Hs = []int64{0, 1, 2, 3}
+		ns = []int{0, 1, 3}
+		Hs = []int64{0, 2}
+		hh = []int64{1, 2}
 	}
 	for _, n := range ns {
-		for _, h := range []int64{1, 2} {
+		for _, h := range hh {
 			for _, H := range Hs {
 				for _, dc := range []bool{false, true} {
 					for _, gap := range []int{0, 1} {
@@ -907,9 +949,9 @@ func main() {
 	for _, c := range exhaustiveDyn(exLen, cfg.Thorough()) {
 		addDyn(c, "exhaustive")
 	}
-	nd, dmax := 1500, 30
+	nd, dmax := 1200, 30
 	if cfg.Thorough() {
-		nd, dmax = 30000, 60
+		nd, dmax = 12000, 60
 	}
 	for i := 0; i < nd; i++ {
 		m := dmax
@@ -936,7 +978,7 @@ func main() {
 	addWl([]string{"aa"}, []wlOp{dw(-1), dw(0), dw(1)}, "directed")
 	nw, wmax := 1200, 30
 	if cfg.Thorough() {
-		nw, wmax = 25000, 60
+		nw, wmax = 8000, 60
 	}
 	for i := 0; i < nw; i++ {
 		items, ops := genWlCase(cfg, wmax)
@@ -957,7 +999,7 @@ func main() {
 	}
 	np, pmax := 900, 14
 	if cfg.Thorough() {
-		np, pmax = 20000, 30
+		np, pmax = 5000, 30
 	}
 	for i := 0; i < np; i++ {
 		segs, ops := genPagerCase(cfg, pmax)
@@ -974,7 +1016,7 @@ func main() {
 	}
 	nb := 800
 	if cfg.Thorough() {
-		nb = 20000
+		nb = 10000
 	}
 	for i := 0; i < nb; i++ {
 		r := cfg.Rand
@@ -1011,5 +1053,5 @@ func main() {
 
 	cfg.Write("C19",
 		"operation traces: vxfw/list.Dynamic (directed DESIGN-6 scenarios, every sequence of <=3 (quick) / <=4 (thorough) ops over {next,prev,wheel-down,wheel-up,draw} on small uniform lists, random sequences over next/prev (method, j/k, arrow keys), wheel events, SetCursor incl. beyond the end and >= 2^63, SetPendingScroll, item replacement, draws; item counts 0..9, heights 0..12, gaps -1..3, viewports 0..9); widgets/list.List (all methods, item replacement, windows 0..4 x -1..6 read back from the Vaxis screen); pager (texts with newlines, wide, combining, ZWJ, tab, CRLF, zero-width characters over up to 3 segments; draws at widths -1..8, scrolling, Offset assignment, re-layout); scrollbar (random totals/views/tops/windows). non-trivial = dyn: some Draw ran with a pending scroll or the wants-cursor flag; wlist: some Draw with offset > 0; pager: some Draw with Offset > 0; sbar: sensible position (1<=view<total, 0<=top<=total-view, window >= 1x1)",
-		[]*hx.Stream{ds, ws, ps, ss}, nil, direct)
+		[]*hx.Stream{ds, ws, ps, ss}, map[string]interface{}{"dynamic_draw_statistics": dynStats}, direct)
 }
